@@ -1,6 +1,6 @@
 #!/bin/sh
 # usage: dev/try3.sh <mutant dir> <property id> -- quick correspondence-only run (--no-build) in the second private worktree
-WT=/tmp/mut/dev2; M=$1; P=$2
+WT=${WT:-/tmp/mut/dev3}; M=$1; P=$2
 git -C $WT checkout -q -- . || exit 9
 git -C $WT apply $M/patch.diff || { echo "patch does not apply"; exit 9; }
 OUT=$(cd /verif && VERIF_REPO=$WT timeout 900 ./check $P --no-build 2>/dev/null | grep -E "VIOLATION|PASS|INTERNAL|KNOWN" | tr '\n' ' ')
